@@ -1,6 +1,7 @@
 import IgrisModel.C16.Model
 import IgrisModel.C16.Wrap
 import IgrisModel.C16.Ext
+import IgrisModel.C16.WrapN
 import IgrisModel.Common.Proto
 open Igris.Proto Igris.C16
 
@@ -86,6 +87,9 @@ inductive St where
   | st (t : STimer)
   /-- stimer with tick values that may lie beyond `LONG_MAX` (read modulo 2^64) -/
   | stW (t : STimerW)
+  /-- `timer_manager_basic<timer_spec<T>>` for a `w`-bit integral `T` (`sgn`: signed); every tick value of
+  the op lines is moved by `off` before it is truncated to `w` bits -/
+  | mgrN (w : Nat) (sgn : Bool) (off : Int) (n : Nat) (m : MgrN w) (cur : BitVec w)
 
 def summary (n : Nat) (m : Mgr) (cur : Int) : String :=
   let ts := (List.range n).map fun i =>
@@ -214,6 +218,54 @@ def stepMgrW (n : Nat) (m : MgrW) (cur : W32) (op : String) (args : List String)
     some (.mgrW n m (wr now), summaryW n m (wr now))
   | _, _ => Option.none
 
+def showTick {w : Nat} (sgn : Bool) (x : BitVec w) : String :=
+  if sgn then toString x.toInt else toString x.toNat
+
+def summaryN {w : Nat} (sgn : Bool) (n : Nat) (m : MgrN w) (cur : BitVec w) : String :=
+  let ts := (List.range n).map fun i =>
+    showTick sgn (m.tm i).finish ++ "/" ++ (if i ∈ m.lst then "1" else "0")
+  "t=" ++ ",".intercalate ts ++ " e=" ++ (if m.empty then "1" else "0") ++ " m=" ++
+    (match m.minimalInterval cur with | some d => showTick sgn d | none => "-")
+
+def showFiresN {w : Nat} (sgn : Bool) (fs : List (FireN w)) : String :=
+  if fs.isEmpty then "-" else ",".intercalate (fs.map fun f => toString f.id ++ ":" ++ showTick sgn f.deadline)
+
+def compactN {w : Nat} (n : Nat) (m : MgrN w) : MgrN w :=
+  let arr := ((List.range n).map m.tm).toArray
+  { m with tm := fun i => if i < n then arr.getD i {} else m.tm i }
+
+/-- the callbacks of the base model with every start moved by `off`, truncated to `w` bits -/
+def cbOffN (w : Nat) (off : Int) (cb : Cb) : CbN w := fun k i =>
+  (cb k i).map fun a => match a with
+    | .unplan j => ActionN.unplan j
+    | .plan j s iv => ActionN.plan j (wrN w (s + off)) (wrN w iv)
+
+def stepMgrN (w : Nat) (sgn : Bool) (off : Int) (n : Nat) (m : MgrN w) (cur : BitVec w) (op : String)
+    (args : List String) : Option (St × String) :=
+  let ret (m' : MgrN w) (cur' : BitVec w) (s : String) : Option (St × String) :=
+    some (.mgrN w sgn off n (compactN n m') cur', s)
+  match op, args with
+  | "plan", [i, st, iv] | "plan1", [i, st, iv] => do
+    let i ← i.toNat?; let st ← st.toInt?; let iv ← iv.toInt?
+    let m' := m.plan3 i (wrN w (st + off)) (wrN w iv)
+    ret m' cur (summaryN sgn n m' cur)
+  | "unplan", [i] => do
+    let i ← i.toNat?
+    let m' := m.unplan i
+    ret m' cur (summaryN sgn n m' cur)
+  | "exec", [now, rules] => do
+    let now ← now.toInt?
+    let rules ← parseRules? rules
+    let cb ← cbOf? rules
+    let nw := wrN w (now + off)
+    let r := execLoopN sgn (cbOffN w off cb) nw driverFuel 0 m
+    if r.2.2 then ret r.1 nw ("f=" ++ showFiresN sgn r.2.1 ++ " " ++ summaryN sgn n r.1 nw)
+    else some (.mgrN w sgn off n r.1 nw, "nonterm")
+  | "q", [now] => do
+    let now ← now.toInt?
+    some (.mgrN w sgn off n m (wrN w (now + off)), summaryN sgn n m (wrN w (now + off)))
+  | _, _ => Option.none
+
 def stepST (t : STimer) (op : String) (args : List String) : Option (St × String) :=
   match op, args with
   | "sinit", [a, b] => do
@@ -240,13 +292,13 @@ def stepSTW (t : STimerW) (op : String) (args : List String) : Option (St × Str
   match op, args with
   | "sinit", [a, b] => do
     let a ← a.toInt?; let b ← b.toInt?
-    let t' : STimerW := ⟨wr64 a, wr64 b, false⟩; some (.stW t', showSTW t')
+    let t' : STimerW := stimerInitN t (wr64 a) (wr64 b); some (.stW t', showSTW t')
   | "splan", [a, b] => do
     let a ← a.toInt?; let b ← b.toInt?
-    let t' : STimerW := ⟨wr64 a, wr64 b, true⟩; some (.stW t', showSTW t')
+    let t' : STimerW := stimerPlanN t (wr64 a) (wr64 b); some (.stW t', showSTW t')
   | "sstart", [a] => do
     let a ← a.toInt?
-    let t' : STimerW := { t with start := wr64 a, planed := true }; some (.stW t', showSTW t')
+    let t' : STimerW := stimerStartN t (wr64 a); some (.stW t', showSTW t')
   | "sswift", [] => let t' := stimerSwiftW t; some (.stW t', showSTW t')
   | "sfinish", [] => some (.stW t, toString (stimerFinishW t).toNat)
   | "scheck", [a] => do
@@ -262,11 +314,19 @@ def stepLine (s : St) (line : String) : St × String :=
   let bad := (s, "bad-op")
   match words line with
   | ["reset", "s"] => (.st {}, "ok")
-  | ["reset", "S"] => (.stW {}, "ok")
+  | ["reset", "S"] | ["reset", "T"] => (.stW {}, "ok")
   | ["reset", "u", n] | ["reset", "U", n] =>
     match n.toNat? with
     | some n => (.mgrW n MgrW.init 0, "ok")
     | Option.none => bad
+  | ["reset", "i", n] | ["reset", "I", n] =>
+    match n.toNat? with
+    | some n => (.mgrN 32 true 0 n MgrN.init 0, "ok")
+    | Option.none => bad
+  | ["reset", "l", n, off] =>
+    match n.toNat?, off.toInt? with
+    | some n, some off => (.mgrN 64 true off n MgrN.init (wrN 64 off), "ok")
+    | _, _ => bad
   | ["reset", "z", n] =>
     match n.toNat? with
     | some n => (.mgr n Mgr.init 0 (some (n - 1)), "ok")
@@ -282,6 +342,7 @@ def stepLine (s : St) (line : String) : St × String :=
     | .mgrW n m cur => (stepMgrW n m cur op args).getD bad
     | .st t => (stepST t op args).getD bad
     | .stW t => (stepSTW t op args).getD bad
+    | .mgrN w sgn off n m cur => (stepMgrN w sgn off n m cur op args).getD bad
   | _ => bad
 
 def main : IO Unit := run St.none stepLine
